@@ -24,7 +24,7 @@ PY
 export VERIF_OVERLAY="$work/ov.json"
 export VERIF_EVIDENCE_DIR="$work/evidence"
 bin="$work/check"
-cd /verif/mc && go build -overlay "$VERIF_OVERLAY" -o "$bin" ./cmd/check || { echo "BUILD FAILED"; exit 2; }
+cd "${VERIF_ROOT:-/verif}/mc" && go build -overlay "$VERIF_OVERLAY" -o "$bin" ./cmd/check || { echo "BUILD FAILED"; exit 2; }
 for id in "$@"; do
   t0=$(date +%s)
   out=$("$bin" "$id" --tier "$tier" $MUTOV_ARGS 2>&1); code=$?; [ -n "$MUTOV_VERBOSE" ] && echo "$out" | tail -${MUTOV_VERBOSE}
